@@ -673,3 +673,52 @@ package cmd
 //@   requires v.l != nil
 //@   modifies *v.l
 //@   ensures valid: result == nil ==> wellFormed(*v.l)
+
+//@ func (*ViewCommand).Execute
+//@   props C16
+//@   requires c != nil
+//@   modifies ghost(nopen, 0), ghost(nlocked, 0)
+//@   check delegates: called(withTextOutWriter) && result == callret(withTextOutWriter, 0)
+
+//@ func (*ViewRawCommand).Execute
+//@   props C16
+//@   requires c != nil
+//@   modifies ghost(nopen, 0), ghost(nlocked, 0), rows(Point)
+//@   check delegates: called(withTextOutWriter) && result == callret(withTextOutWriter, 0)
+
+//@ func (*DiffCommand).Execute
+//@   props C16
+//@   requires c != nil
+//@   modifies ghost(nopen, 0), ghost(nlocked, 0)
+//@   check delegates: called(withTextOutWriter) && result == callret(withTextOutWriter, 0)
+
+//@ func (*SumCommand).Execute
+//@   props C16
+//@   requires c != nil
+//@   modifies ghost(nopen, 0), ghost(nlocked, 0)
+//@   check delegates: called(withTextOutWriter) && result == callret(withTextOutWriter, 0)
+
+//@ func (*CopyCommand).Execute
+//@   props C16
+//@   requires c != nil
+//@   modifies ghost(nopen, 0), ghost(nlocked, 0), rows(Point), c.ArchiveInfoList[0:len(c.ArchiveInfoList)]
+//@   check delegates: called(withTextOutWriter) && result == callret(withTextOutWriter, 0)
+
+//@ func (*SumCopyCommand).Execute
+//@   props C16
+//@   requires c != nil
+//@   modifies ghost(nopen, 0), ghost(nlocked, 0), rows(Point), c.ArchiveInfoList[0:len(c.ArchiveInfoList)]
+//@   check delegates: called(withTextOutWriter) && result == callret(withTextOutWriter, 0)
+
+//@ func (*SumDiffCommand).Execute
+//@   props C16
+//@   requires c != nil
+//@   modifies ghost(nopen, 0), ghost(nlocked, 0)
+//@   check delegates: called(withTextOutWriter) && result == callret(withTextOutWriter, 0)
+
+//@ func (*GenerateCommand).Execute
+//@   props C16
+//@   requires c != nil
+//@   modifies ghost(nopen, 0), ghost(nlocked, 0), rows(Point), c.ArchiveInfoList[0:len(c.ArchiveInfoList)]
+//@   check delegates: called(withTextOutWriter) && result == callret(withTextOutWriter, 0)
+
